@@ -73,7 +73,7 @@ def run(ctx, prop, ps, gen_bad):
         fs, st = seqengine.run_profile(ctx, prop, profile, nseq, nops, size, seed_off=k * 7919, survive_only=(prop == 'C11'),
                                       # C06 judges each call's own lock events and whether it returns: a disagreement with the
                                       # reference (owned by other properties) does not end the sequence
-                                      ignore_foreign=(prop == 'C06'))
+                                      ignore_foreign=(prop in ('C06', 'C13')))
         tot['sequences'] += st['sequences']
         tot['steps'] += st['steps']
         tot['cut'] += st['cut_short']
